@@ -238,4 +238,37 @@ def Call.success : Call → Option (Nat × Nat)
   | .done arg (some tid) => some (tid, arg)
   | _ => none
 
+/-- executable form of `Step` (used by the driver's scheduler; `exec_sound` in Props/C15 shows every
+    executed action is a `Step`) -/
+inductive Action
+  | call (arg : Nat) | lookup (i : Nat) | allocFail (i : Nat) | fetchAdd (i : Nat) | newChild (i : Nat)
+  | create (i : Nat) | createFail (i : Nat) | run (j : Nat)
+  deriving Repr, DecidableEq
+
+def exec (hasExport : Bool) (s : Sys) : Action → Option Sys
+  | .call arg => some { s with calls := s.calls ++ [.init arg] }
+  | .lookup i => match s.calls[i]? with
+    | some (.init arg) => some { s with calls := s.calls.set i (if hasExport then .looked arg else .done arg none) }
+    | _ => none
+  | .allocFail i => match s.calls[i]? with
+    | some (.init arg) => some { s with calls := s.calls.set i (.done arg none) }
+    | _ => none
+  | .fetchAdd i => match s.calls[i]? with
+    | some (.looked arg) =>
+      if s.next + Gen.WasiPath.threadIDIncrement < 4294967296 then
+        some { s with calls := s.calls.set i (.gotId arg s.next), next := s.next + Gen.WasiPath.threadIDIncrement }
+      else none
+    | _ => none
+  | .newChild i => match s.calls[i]? with
+    | some (.gotId arg tid) => some { s with calls := s.calls.set i (.hasChild arg tid s.children), children := s.children + 1 }
+    | _ => none
+  | .create i => match s.calls[i]? with
+    | some (.hasChild arg tid c) =>
+      some { s with calls := s.calls.set i (.done arg (some tid)), threads := s.threads ++ [⟨c, tid, arg⟩] }
+    | _ => none
+  | .createFail i => match s.calls[i]? with
+    | some (.hasChild arg _ _) => some { s with calls := s.calls.set i (.done arg none) }
+    | _ => none
+  | .run j => if j < s.threads.length ∧ j ∉ s.started then some { s with started := s.started ++ [j] } else none
+
 end W2c2Verif.WasiProc
